@@ -101,6 +101,14 @@ package queue
 //@   loop 0 invariant g != nil && q.headGroup == old(q.headGroup) && unchanged(group.conf) && unchanged(group.conf.Priority) && unchanged(q.headGroup.conf) && unchanged(q.headGroup.conf.Priority) && (g != q.headGroup ==> group.conf.Priority <= q.headGroup.conf.Priority)
 //@   modifies allof(sortedGroup).next, allof(sortedGroup).prev, q.headGroup
 
+// Push: a file enters the queue as a fresh entry - nothing allocated, not linked to anything - and a
+// queued entry of the same name is taken out of its chain completely (whatever its position) first
+//@ func (*Tagged).Push
+//@   before call (*Tagged).addFile assert queued-entry-is-fresh: arg1 != nil && arg1.orig == file && arg1.group == group && arg1.allocated == 0 && arg1.next == nil && arg1.prev == nil && fresh(arg1)
+//@   before call (*Tagged).addFile assert replaced-entry-is-unlinked: initer(called((*Tagged).removeFile)) ==> initer(called((*sortedFile).unlink)) && lastarg((*sortedFile).unlink, 0) == lastarg((*Tagged).removeFile, 1) && lastarg((*Tagged).removeFile, 1) == orig
+//@   before call (*Tagged).removeFile assert replaces-the-entry-of-that-name: has(q.byFile, file.GetName()) && arg1 == q.byFile[file.GetName()]
+//@   modifies everything
+
 //@ func (*Tagged).removeFile
 //@   modifies entries(q.headFile), entries(q.byFile)
 
